@@ -20,7 +20,7 @@ TIERS = {"quick": {"shards": 8, "cases": 500}, "thorough": {"shards": 16, "cases
 FLOOR_BASE = {"quick": 230, "thorough": 6000}    # case counts the floors below were calibrated for; the launcher scales them
 CLASSES = ["PUBO", "PUSO", "PCBO", "PCSO"]
 FORMS = ["qubo", "quso", "pubo", "puso"]
-LAMS = ["none", "const-big", "const-exact", "const-small", "call-abs", "call-2abs1"]
+LAMS = ["none", "const-big", "const-exact", "const-small", "call-abs", "call-2abs1", "call-partial", "call-object"]
 
 
 def FLOORS(tier):
@@ -129,7 +129,24 @@ def choose_lam(rng, M, want):
         return lk, thr / 4, False
     if lk == "call-abs":
         return lk, (lambda v: abs(v)), True
+    if lk == "call-partial":
+        import functools
+        return lk, functools.partial(_scaled_abs, 2), True        # any callable is a penalty function, not only def / lambda
+    if lk == "call-object":
+        return lk, _AbsPlus(1), True
     return lk, (lambda v: 2 * abs(v) + 1), True
+
+
+def _scaled_abs(k, v):
+    return k * abs(v)
+
+
+class _AbsPlus:
+    def __init__(self, c):
+        self.c = c
+
+    def __call__(self, v):
+        return abs(v) + self.c
 
 
 def check_certificate(ctx, M, P, cert, want, lam_sound, w):
